@@ -85,6 +85,14 @@ int main()
       int a = (int)vh::to_ll(w.at(1)), b = (int)vh::to_ll(w.at(2));
       return std::to_string(divRoundUp(a, b));
     }
+    if (op == "divru8" || op == "divru16" || op == "divrus8" || op == "divrus16") {
+      // narrow element types: a + b - 1 is computed in int (integral promotion), so the sum cannot wrap in T
+      long long a = vh::to_ll(w.at(1)), b = vh::to_ll(w.at(2));
+      if (op == "divru8") return std::to_string((unsigned)divRoundUp((uint8_t)a, (uint8_t)b));
+      if (op == "divru16") return std::to_string((unsigned)divRoundUp((uint16_t)a, (uint16_t)b));
+      if (op == "divrus8") return std::to_string((int)divRoundUp((int8_t)a, (int8_t)b));
+      return std::to_string((int)divRoundUp((int16_t)a, (int16_t)b));
+    }
     if (op == "divru64") {
       long long a = vh::to_ll(w.at(1)), b = vh::to_ll(w.at(2));
       return std::to_string(divRoundUp(a, b));
